@@ -143,3 +143,103 @@ Proof.
   - destruct (convert_torus_general (to_main o b c) (tvec b u) cp nap (to_main o b p') Hu' Hx Hy Hz) as (t & Ht & Hv).
     exists t. split; [exact Ht|]. cbv zeta in Hv. rewrite msense_moved in Hv by (assumption || reflexivity). exact Hv.
 Qed.
+
+(* ---------- no guard: every unit axis ---------- *)
+(* what numpy.allclose(|a|, e) = true bounds: the other two components are at
+   most atol = 1e-8 in magnitude *)
+Lemma close1_zero_bound x : close1 RS (Rabs x) 0 = true -> x * x <= / 10000000000000000.
+Proof.
+  unfold close1, atol, rtol; rs. intros H. apply Rleb_true in H.
+  replace (Rabs x - 0) with (Rabs x) in H by ring. rewrite Rabs_R0, Rabs_Rabsolu in H.
+  replace (1 / 100000000 + 1 / 100000 * 0) with (/ 100000000) in H by field.
+  assert (H0 : 0 <= Rabs x) by apply Rabs_pos.
+  assert (Hx : x * x = Rabs x * Rabs x) by (unfold Rabs; destruct (Rcase_abs x); ring).
+  rewrite Hx. replace (/ 10000000000000000) with (/ 100000000 * / 100000000) by field. nra.
+Qed.
+
+Definition tiny : R := 2 * / 10000000000000000.   (* 2e-16 = 2 atol^2 *)
+
+Lemma torus_snap c a cp nap (e : R3) :
+  (e = mkV 1 0 0 /\ allclose3 RS (vmap (sabs RS) a) (ex RS) = true) \/
+  (e = mkV 0 1 0 /\ allclose3 RS (vmap (sabs RS) a) (ex RS) = false /\
+                    allclose3 RS (vmap (sabs RS) a) (ey RS) = true) \/
+  (e = mkV 0 0 1 /\ allclose3 RS (vmap (sabs RS) a) (ex RS) = false /\
+                    allclose3 RS (vmap (sabs RS) a) (ey RS) = false /\
+                    allclose3 RS (vmap (sabs RS) a) (ez RS) = true) ->
+  convert RS (mkMS KT c a cp nap) = convert RS (mkMS KT c e cp nap) /\ norm2 (cross e a) <= tiny.
+Proof.
+  intros H. destruct a as [a1 a2 a3].
+  assert (Habs1 : Rabs 1 = 1) by apply Rabs_R1.
+  unfold convert, convert_torus; cbn [mk mpt maxis mcp rmap].
+  destruct H as [(-> & Hx) | [(-> & Hx & Hy) | (-> & Hx & Hy & Hz)]].
+  - rewrite Hx. split.
+    + unfold allclose3, vmap, ex; rs. rewrite Habs1, Rabs_R0, !close1_refl. reflexivity.
+    + unfold allclose3, vmap, ex in Hx; rs. apply andb_true_iff in Hx. destruct Hx as [Hx H3].
+      apply andb_true_iff in Hx. destruct Hx as [_ H2].
+      apply close1_zero_bound in H2. apply close1_zero_bound in H3.
+      unfold norm2, dot, cross, tiny; cbn [vx vy vz]. nra.
+  - rewrite Hx, Hy. split.
+    + unfold allclose3, vmap, ex, ey; rs. rewrite Habs1, Rabs_R0, !close1_refl, close1_0_1. reflexivity.
+    + unfold allclose3, vmap, ey in Hy; rs. apply andb_true_iff in Hy. destruct Hy as [Hy H3].
+      apply andb_true_iff in Hy. destruct Hy as [H1 _].
+      apply close1_zero_bound in H1. apply close1_zero_bound in H3.
+      unfold norm2, dot, cross, tiny; cbn [vx vy vz]. nra.
+  - rewrite Hx, Hy, Hz. split.
+    + unfold allclose3, vmap, ex, ey, ez; rs. rewrite Habs1, Rabs_R0, !close1_refl, close1_0_1. cbn [andb]. reflexivity.
+    + unfold allclose3, vmap, ez in Hz; rs. apply andb_true_iff in Hz. destruct Hz as [Hz _].
+      apply andb_true_iff in Hz. destruct Hz as [H1 H2].
+      apply close1_zero_bound in H1. apply close1_zero_bound in H2.
+      unfold norm2, dot, cross, tiny; cbn [vx vy vz]. nra.
+Qed.
+
+(* the converted torus, for EVERY unit axis a: it is exactly the torus with the
+   same centre and parameters about an axis a' which is a itself, or the
+   coordinate axis numpy.allclose snapped it to, with |a' x a|^2 <= 2e-16
+   (an angle below 1.5e-8 rad) *)
+Theorem convert_torus_total : forall c a cp nap, norm2 a = 1 ->
+  exists t a', convert RS (mkMS KT c a cp nap) = Ok ((t, 1%Z) :: nil) /\
+    (forall P, t4val t P = msense (mkMS KT c a' cp nap) P) /\
+    norm2 a' = 1 /\ (a' = a \/ norm2 (cross a' a) <= tiny).
+Proof.
+  intros c a cp nap Hu.
+  assert (aligned : forall e, (e = mkV 1 0 0 \/ e = mkV 0 1 0 \/ e = mkV 0 0 1) ->
+            convert RS (mkMS KT c a cp nap) = convert RS (mkMS KT c e cp nap) -> norm2 (cross e a) <= tiny ->
+            exists t a', convert RS (mkMS KT c a cp nap) = Ok ((t, 1%Z) :: nil) /\
+              (forall P, t4val t P = msense (mkMS KT c a' cp nap) P) /\
+              norm2 a' = 1 /\ (a' = a \/ norm2 (cross a' a) <= tiny)).
+  { intros e He Hc Hb.
+    assert (Hal : forall P, exists t, convert RS (mkMS KT c e cp nap) = Ok ((t, 1%Z) :: nil) /\
+                            t4val t P = msense (mkMS KT c e cp nap) P).
+    { intros P. apply (convert_torus_aligned c e cp nap P 1); [left; reflexivity | exact He]. }
+    destruct (Hal (mkV 0 0 0)) as (t & Ht & _).
+    exists t, e. split; [rewrite Hc; exact Ht|]. split; [| split].
+    - intros P. destruct (Hal P) as (t' & Ht' & Hv). rewrite Ht in Ht'. injection Ht' as <-. exact Hv.
+    - destruct He as [-> | [-> | ->]]; unfold norm2, dot; cbn [vx vy vz]; ring.
+    - right; exact Hb. }
+  destruct (allclose3 RS (vmap (sabs RS) a) (ex RS)) eqn:Hx.
+  { destruct (torus_snap c a cp nap (mkV 1 0 0)) as [Hc Hb]; [left; auto|]. apply (aligned (mkV 1 0 0)); auto. }
+  destruct (allclose3 RS (vmap (sabs RS) a) (ey RS)) eqn:Hy.
+  { destruct (torus_snap c a cp nap (mkV 0 1 0)) as [Hc Hb]; [right; left; auto|]. apply (aligned (mkV 0 1 0)); auto. }
+  destruct (allclose3 RS (vmap (sabs RS) a) (ez RS)) eqn:Hz.
+  { destruct (torus_snap c a cp nap (mkV 0 0 1)) as [Hc Hb]; [right; right; auto|]. apply (aligned (mkV 0 0 1)); auto. }
+  assert (Hg : forall P, exists t, convert RS (mkMS KT c a cp nap) = Ok ((t, 1%Z) :: nil) /\
+                         t4val t P = msense (mkMS KT c a cp nap) P).
+  { intros P. apply (convert_torus_general c a cp nap P Hu Hx Hy Hz). }
+  destruct (Hg (mkV 0 0 0)) as (t & Ht & _).
+  exists t, a. split; [exact Ht|]. split; [| split; [exact Hu | left; reflexivity]].
+  intros P. destruct (Hg P) as (t' & Ht' & Hv). rewrite Ht in Ht'. injection Ht' as <-. exact Hv.
+Qed.
+
+Theorem frame_transform_torus_total : forall (o : R3) (b : M3 R) c u cp nap,
+  rows_orthonormal b -> norm2 u = 1 ->
+  exists t a', tr_convert RS (vlist o ++ mlist b) (mkMS KT c u cp nap) = Ok ((t, 1%Z) :: nil) /\
+    (forall p', t4val t (to_main o b p') = msense (mkMS KT (to_main o b c) a' cp nap) (to_main o b p')) /\
+    norm2 a' = 1 /\ (a' = tvec b u \/ norm2 (cross a' (tvec b u)) <= tiny) /\
+    (a' = tvec b u -> forall p', t4val t (to_main o b p') = msense (mkMS KT c u cp nap) p').
+Proof.
+  intros o b c u cp nap Hb Hu. unfold tr_convert. rewrite transformation_frame by reflexivity. cbn [bind].
+  assert (Hu' : norm2 (tvec b u) = 1) by (rewrite norm2_tvec; assumption).
+  destruct (convert_torus_total (to_main o b c) (tvec b u) cp nap Hu') as (t & a' & Hc & Hv & Hn & Ha).
+  exists t, a'. split; [exact Hc|]. split; [intros p'; apply Hv|]. split; [exact Hn|]. split; [exact Ha|].
+  intros -> p'. rewrite Hv. apply msense_moved; [assumption | reflexivity].
+Qed.
